@@ -162,7 +162,12 @@ Definition call_shape_ok (sg : signature val) (c : call val) : bool :=
   && nodup_names (map fst (combine (positional_names val sg) (c_args c) ++ c_kwargs c)).
 
 Definition domain (sg : signature val) (dc : deco val) (env : wenv) (c : call val) : Z :=
-  if s_varpos sg then (if spec_star_domain val sg dc c && negb (flask_clause dc env) then 3 else 0)    (* 3: *args, principal use *)
+  if s_varpos sg then
+    (if spec_star_domain val sg dc c && negb (flask_clause dc env) then 3            (* 3: *args, principal use: spec_star_outcome *)
+     else if decl_wellformed val sg dc && call_shape_ok sg c && negb (flask_clause dc env)
+             && names_fit val sg dc (if d_ignore_input dc then {| c_args := []; c_kwargs := [] |} else c)
+          then 4   (* 4: *args function, nothing for the tuple, every name a parameter: spec_outcome, empty tuple *)
+          else 0)
   else if negb (decl_wellformed val sg dc && call_shape_ok sg c) || flask_clause dc env then 0
   else if names_fit val sg dc (if d_ignore_input dc then {| c_args := []; c_kwargs := [] |} else c) then 2   (* ignore_input: no name of the caller reaches the function *)
   else match demanded_raises val is_none sg dc c with _ :: _ => 2 | [] => 1 end.
@@ -177,5 +182,5 @@ Definition eval_case (ps : list (param val)) (sps : list (sigparam val)) (varkw 
   let r := run val is_none Gen.Validate.cfg Gen.Validate.is_required_rule sg env dc is_async c in
   enc_journal (fst r) ++ enc_final (snd r) ++ [-1]
   ++ [domain sg dc env c]
-  ++ (if varpos then enc_demanded_star (spec_star_outcome val is_none sg dc c) else enc_demanded (spec_outcome val is_none sg dc c))
+  ++ (if domain sg dc env c =? 3 then enc_demanded_star (spec_star_outcome val is_none sg dc c) else enc_demanded (spec_outcome val is_none sg dc c))
   ++ enc_journal (concat (spec_journals val is_none sg dc c)).
